@@ -1,14 +1,19 @@
 #!/bin/bash
-# usage: tools/run_benign.sh — behaviour-preserving refactorings (benign/<name>/patch.diff, written by sub-agents that saw
-# nothing of /verif) applied to scratch copies of /repo; the checker must stay silent (beyond the listed known findings).
+# usage: tools/run_benign.sh [-j N] — behaviour-preserving refactorings and correct new features (benign/<name>/patch.diff,
+# written by sub-agents that saw nothing of /verif) applied to scratch copies of /repo; the checker must stay silent
+# (beyond the listed known findings). Runs N patches at a time (default 8); output is sorted by name.
 cd "$(dirname "$0")/.."
-for d in benign/*/; do
-  name=$(basename "$d")
+J=8
+[ "$1" = "-j" ] && J="$2"
+one() {
+  d="$1"; name=$(basename "$d")
   out=$(tools/runmut.sh "$d/patch.diff" all 2>&1 | grep -v "^RD3\|^OU1 .*\(RunQuickstart\|printVersion\|UsageText\|init#9\)\|^DT10 .*field Graph.Tombstones\|^rules=")
   # a patch written to preserve ONE property may rightly trip a rule of another: listed, with the reason, in expected.txt
   if [ -f "$d/expected.txt" ]; then
     for r in $(awk '{print $1}' "$d/expected.txt"); do out=$(echo "$out" | grep -v "^$r "); done
   fi
-  n=$(echo "$out" | grep -c "violated\|undecided")
-  echo "$name alarms=$n $(echo "$out" | awk '$2=="violated"||$2=="undecided"{print $1}' | sort | uniq -c | awk '{printf "%s×%s ", $2, $1}')"
-done
+  n=$(echo "$out" | grep -c "violated\|undecided\|DOES-NOT\|PATCH-DOES")
+  echo "$name alarms=$n $(echo "$out" | awk '$2=="violated"||$2=="undecided"{print $1}' | sort | uniq -c | awk '{printf "%s×%s ", $2, $1}')$(echo "$out" | grep -o 'DOES-NOT-COMPILE\|PATCH-DOES-NOT-APPLY' | head -1)"
+}
+export -f one
+ls -d benign/*/ | sed 's#/$##' | xargs -P "$J" -I{} bash -c 'one {}' | sort -V
